@@ -312,6 +312,35 @@ Qed.
 Lemma set_ptr_abs : forall id, abs (set_ptr id) = d_set_ptr id.
 Proof. intros [i|]; reflexivity. Qed.
 
+Lemma empty_of_kind_abs : forall k, abs (empty_of_kind k) = d_empty_of_kind k.
+Proof.
+  intros k. unfold empty_of_kind, d_empty_of_kind.
+  repeat match goal with |- context [N.eqb k ?c] => destruct (N.eqb k c) end; reflexivity.
+Qed.
+
+Lemma assign_cont_abs : forall v1 v2, abs2 (assign_cont v1 v2) = d_assign_cont (abs v1) (abs v2).
+Proof.
+  intros v1 v2. unfold assign_cont, d_assign_cont, abs2. cbn [fst snd].
+  destruct v2 as [s|j|s|l|sl]; try reflexivity.
+  - rewrite copy_abs. reflexivity.
+  - rewrite copy_abs, abs_obj. reflexivity.
+Qed.
+
+Lemma append_cont_abs : forall v1 v2, abs2 (append_cont v1 v2) = d_append_cont (abs v1) (abs v2).
+Proof.
+  intros v1 v2. unfold append_cont, d_append_cont, abs2. cbn [fst snd].
+  destruct v2 as [s|j|s|l|s2]; try reflexivity.
+  - destruct l as [|x l]; [rewrite append_abs; reflexivity|].
+    change (abs (Arr (x :: l))) with (DArr (abs x :: map abs l)). cbv iota beta.
+    change (abs x :: map abs l) with (map abs (x :: l)).
+    generalize (x :: l). intros l'. cbn [abs]. rewrite map_app, arr_items_abs, !map_map. f_equal. apply f_equal. apply f_equal.
+    apply map_ext. intros a. apply copy_abs.
+  - rewrite (abs_obj s2). destruct v1 as [s|j|s|l|s1];
+      try (rewrite append_abs, copy_abs, abs_obj; reflexivity).
+    rewrite !abs_obj. destruct (merge_abs (copy_members (live s2)) s1) as [E1 E2].
+    rewrite E1, E2, copy_members_abs. reflexivity.
+Qed.
+
 (* ---- paths ---- *)
 Lemma get_at_abs : forall p v, oabs (get_at p v) = d_get_at p (abs v).
 Proof.
@@ -468,4 +497,7 @@ Proof.
   - apply unary_abs. intros x. cbn [oabs option_map]. rewrite set_ptr_abs. reflexivity.
   - apply unary_abs. intros x. cbn [oabs option_map]. rewrite append_abs, set_ptr_abs. reflexivity.
   - apply unary_abs. reflexivity.
+  - apply unary_abs. intros x. cbn [oabs option_map]. rewrite empty_of_kind_abs. reflexivity.
+  - apply binary_abs. apply assign_cont_abs.
+  - apply binary_abs. apply append_cont_abs.
 Qed.
